@@ -133,6 +133,8 @@ func (fs *fsMutable) deleteNSEntry(p fuseops.InodeID, c string) error {
 	children := fs.readDirMap[p]
 	// Delete from parent read dir
 	delete(children, cLE.iNode)
+	// the node is no longer linked in the name space: it goes away with its last reference
+	cNode.attr.Nlink = 0
 	return nil
 }
 
@@ -749,7 +751,8 @@ func getPathToBackingFile(iNode fuseops.InodeID) string {
 func shouldDelete(n *nodeEntry) bool {
 	// LookupCount should be zero.
 	if n.attr.Mode.IsDir() {
-		if n.refCount == 0 {
+		// a directory still linked in the name space outlives the kernel's references to it
+		if n.refCount == 0 && n.attr.Nlink == 0 {
 			return true
 		}
 	} else {
